@@ -180,6 +180,11 @@ func (r *Report) Finish(verifDir string, started time.Time, seed int) int {
 		}
 	}
 
+	if os.Getenv("VERIF_DUMP") != "" {
+		for _, o := range r.Obs {
+			fmt.Printf("DUMP %v %s @%s :: %s\n", o.Status, o.Key, o.Pos, o.Detail)
+		}
+	}
 	findings, ferr := LoadFindings(filepath.Join(verifDir, "known_findings.jsonl"))
 	if ferr != nil {
 		fmt.Fprintf(os.Stderr, "verifsa: %v\n", ferr)
